@@ -162,7 +162,11 @@ def families(ctx, reps, do_model=True):
             n = rng.choice([3, 4, 5, 6, 8, 11, 16, 24])
             pool = rng.choice([ATOMS, [b"{", b"}", b"(", b")", b"x", b"y"], [b"f(a){", b"b;", b"};", b"x;", b"[1]=", b"2;"]])
             parts = [rng.choice(pool) for _ in range(n)]
-            f = (b"", parts, [True] * n, b"")
+            # minimize-around also on testcases with non-reducible parts between the atoms (as --js / --attrs produce)
+            red = [rng.random() < 0.75 for _ in range(n)] if (name == "minimize-around" and rng.random() < 0.4) else [True] * n
+            if name == "minimize-around" and not all(red):
+                parts = [rng.choice([b"A", b"A", b"B"]) if r else rng.choice([b'" + "', b'";\nx = "']) for r in red]
+            f = (b"", parts, red, b"")
             salt = bytes([rng.randrange(256) for _ in range(3)])
             thr = rng.randrange(30, 220)
             fns = [lambda c: hashlib.blake2b(c + salt, digest_size=1).digest()[0] < thr,
